@@ -4,14 +4,18 @@ the model's parse / simplify / matches / mshow on grammar-generated expressions 
 import random
 
 import common
+import docgen
 import implenv
 import matchgen
 import universe
 
 INFO = {
-    'proof_files': ['Proofs/MatcherProofs.v'],
+    'proof_files': ['Proofs/MatcherProofs.v', 'Proofs/DocSemLevels.v', 'Proofs/DocSemTop.v', 'Proofs/DocParseA.v', 'Proofs/DocParseB.v',
+                    'Proofs/DocParseC.v', 'Proofs/DocParseD.v', 'Proofs/DocParseE.v', 'Proofs/DocParseF.v',
+                    'Proofs/DocLayA.v', 'Proofs/DocLayB.v', 'Proofs/DocLayC.v', 'Proofs/DocLayD.v'],
     'assumptions': [
         'theorems are about WD.Matcher / WD.MatcherParse (the matcher classes, simplify, join, parse transcribed rule for rule); tied to core/matcher.py by evaluating generated expressions (documented grammar, all atom kinds, lists, brackets, white space) on a universe of messages on both sides, simplified and unsimplified, plus the printed forms',
+        'the documented language itself is WD.Doc (syntax tree, denote = matchers.md and the property text read compositionally, render = its text with any white space); C05_main: text rendered from a well-formed tree parses, and the simplified matcher selects exactly denote, except on the D11 family (side_ok); the harness checks the same statement directly on /repo: matcher.parse(render e).simplify().matches(m) == denote e m for generated trees x universe, every difference must lie where the model says side_ok is false AND have the recorded shape',
         'floats in matcher text other than plain decimals (exponents, inf, nan, underscores) and non-ASCII text are out of model (counted)',
     ],
 }
@@ -81,6 +85,7 @@ def run(res):
     res.rule = ('expressions derived from the documented grammar (depth 0-3, all atom kinds, comma/! lists, brackets, connection prefix, white space) '
                 'plus mutated (malformed) text, each evaluated on %d messages simplified and unsimplified and printed; '
                 'non-trivial = accepted expression containing a list, exclusion, bracket or argument part; distinct by text' % len(uni))
+    doc_check(res, rnd, uni, imsgs, smsgs)
     known_findings(res, uni, imsgs)
 
 
@@ -90,6 +95,83 @@ CORPUS = ['*', '!', 'wl_surface', '5', '4b', '.commit', 'wl_surface.commit', 'B:
           '(*)', '(* ! 5)', '.commit(*)', '.commit()', '.commit( )', '.new(!*)', 'A: 3b', 'A:', '@3a', '#3', 'wl_surface@', '3a.new', '(!)',
           '( ! )', '[', ']', '[]', '()', 'a(b)(c)', 'a.b.c', '"', '(")', '("a,b")', '(x="[")', '1_0', '(1_0)', '( 5 )', '(5.)', '(.5)',
           '(name=wl_seat)', '(wl_seat)', '(nil)', '(@3)', '(3)', '(3a)', '(3.0)', '(x=)', '(=5)', '(=)', 'wl_*.new(', ' , ', ',', '!,']
+
+
+SHAPES = {1: 'all-star positives, no exclusion, zero-argument message',
+          2: 'exclusion accepting everything, no positives, zero-argument message',
+          3: 'all-star positives, no exclusion, zero-argument message'}
+
+
+def doc_check(res, rnd, uni, imsgs, smsgs):
+    """The property itself on /repo: documented tree -> text (0/1/2 blanks everywhere, and an independent 0-3 blanks at every strippable position) -> matcher.parse().simplify().matches()
+    against the documented meaning computed by the model (Doc.denote)."""
+    from core import matcher
+    n = 700 if res.tier == 'quick' else 30000
+    exprs = [docgen.dtop(rnd, rnd.choice([0, 1, 2, 3])) for _ in range(n)]
+    seen_shapes = set()
+    for lo in range(0, n, 1500):
+        chunk = exprs[lo:lo + 1500]
+        mres = common.model_eval('doc', [[e, smsgs, [rnd.randrange(8) for _ in range(rnd.choice([0, 40, 400]))]] for e in chunk])
+        for e, r in zip(chunk, mres):
+            res.evaluations += 1
+            if r == ['bad-case'] or len(r) != 7:
+                res.disagree('doc entry rejected a generated tree', e, None, r, sig={'entry': 'doc', 'category': 'harness'})
+                continue
+            wf, texts, den, parsed, elabm, strs, side = r
+            if not wf:
+                res.count('doc:not-wf')
+                continue
+            ok = True
+            for k, (t, pm) in enumerate(zip(texts, parsed)):
+                if pm[0] != 'ok':
+                    if pm == ['raise', 99]:
+                        res.out_of_model += 1
+                    else:
+                        res.disagree('documented text rejected by the model parser', t, 'Ok', pm, sig={'entry': 'doc', 'category': 'T1-reject', 'text': t},
+                                     theorem='C05_parse_render')
+                    ok = False
+                    continue
+                try:
+                    sm = matcher.parse(t).simplify()
+                    im = [1 if sm.matches(x) else 0 for x in imsgs]
+                except Exception as ex:
+                    res.disagree('documented text rejected by the implementation', t, 'accepted', repr(ex), sig={'entry': 'doc', 'category': 'impl-reject', 'text': t},
+                                 theorem='C05_parse_render')
+                    ok = False
+                    continue
+                if im != pm[1]:
+                    i = [a != b for a, b in zip(im, pm[1])].index(True)
+                    res.disagree('matcher selection differs from model (documented text)', t, pm[1][i], im[i],
+                                 sig={'entry': 'doc', 'category': 'impl-vs-model', 'text': t, 'detail': repr(uni[i])}, theorem='C05 (model of parse/simplify/matches)')
+                    ok = False
+                    continue
+                if pm[1] != elabm or strs[k][0] != 'ok' or strs[k][1][0] != strs[k][1][1]:
+                    res.disagree('parsed text and elaborated tree differ although C05_parse_render says they agree', t, elabm, pm[1],
+                                 sig={'entry': 'doc', 'category': 'T1', 'text': t}, theorem='C05_parse_render')
+                    ok = False
+                    continue
+                # the property: what /repo selects is what the documentation says
+                for i, (a, d) in enumerate(zip(im, den)):
+                    if a == d:
+                        continue
+                    ok = False
+                    sok, shapes = side[i]
+                    zero = not uni[i]['args']
+                    if sok or not zero or not shapes:
+                        res.disagree('the matcher selects a message its documented meaning does not (or the reverse)', {'text': t, 'tree': e, 'message': uni[i]},
+                                     d, a, sig={'entry': 'doc', 'category': 'T2', 'text': t, 'side_ok': sok, 'zero_args': zero},
+                                     theorem='C05_simplified_means_doc / C05_main')
+                    else:
+                        seen_shapes.add(max(shapes))
+                    break
+            if ok:
+                res.nontriv(('doc', repr(e)))
+                res.count('doc:agree')
+    for sh in sorted(seen_shapes):
+        # one report per recorded shape (matched against known_findings.json); anything else above is a violation
+        ex = {1: '(*)', 2: '(!*)', 3: '(*)'}[sh]
+        res.disagree('documented meaning and tool differ on a zero-argument message: %s' % SHAPES[sh], ex, 'Doc.denote', 'matcher.parse(..).simplify().matches',
+                     sig={'call_site': 'ArgsMatcherList.simplify', 'shape': SHAPES[sh]}, theorem='C05_args_star_refuted_doc / C05_args_excl_star_refuted')
 
 
 def known_findings(res, uni, imsgs):
